@@ -296,7 +296,7 @@ def main():
             if qn in (None, "None"):
               continue
             field = {"kernel_quantizer": "kernel", "depthwise_quantizer": "kernel", "pointwise_quantizer": "kernel", "bias_quantizer": "bias",
-                     "activation": "activation", "recurrent_quantizer": "kernel", "recurrent_activation": "activation"}[role]
+                     "activation": "activation", "activation_quantizer": "activation", "recurrent_quantizer": "kernel", "recurrent_activation": "activation"}[role]
             slot_i = {"kernel": 0, "bias": 1, "activation": -1}[field]
             is_lin = cls == "Activation" and lname[nme][2] == "ALinear"
             if is_lin:
@@ -318,8 +318,41 @@ def main():
             kv = {q[nme].get("kernel_quantizer") or q[nme].get("depthwise_quantizer") for nme in members} if role != "bias_quantizer" else vals
             if len(kv) > 1:
               rep.violation(f"group-not-shared-{i}-{p}-{role}", f"layers {members} match pattern {p!r} but received different {role}: {kv}", {"limit": str(adj)})
-        # the architecture of the reference model
+        # the architecture of the reference model, and the quantizers the TRIAL MODEL really carries
         if qm is not None:
+          def sig(obj):
+            return None if obj is None else (type(obj).__name__, int(getattr(obj, "bits", -1)))
+          for nme, ent in q.items():
+            if not isinstance(ent, dict) or not ent:
+              continue
+            try:
+              lq = qm.get_layer(nme)
+            except ValueError:
+              continue
+            if not hasattr(lq, "get_quantizers"):
+              continue
+            actual = {}
+            qs_ = lq.get_quantizers()
+            if "kernel_quantizer" in ent or "depthwise_quantizer" in ent:
+              actual["kernel_quantizer" if "kernel_quantizer" in ent else "depthwise_quantizer"] = qs_[0]
+            if "bias_quantizer" in ent:
+              actual["bias_quantizer"] = qs_[-1]
+            act_key = "activation_quantizer" if "activation_quantizer" in ent else ("activation" if "activation" in ent else None)
+            if act_key:
+              actual[act_key] = lq.activation if not callable(lq.activation) or hasattr(lq.activation, "bits") or type(lq.activation).__name__ in cfg["activation"] else lq.activation
+            for role, chosen in ent.items():
+              if role not in actual or chosen in (None, "None"):
+                continue
+              want_sig = sig(get_quantizer(chosen))
+              got_obj = actual[role]
+              got_sig = sig(got_obj) if not isinstance(got_obj, str) else sig(get_quantizer(got_obj))
+              if type(got_obj).__name__ == "function":
+                got_sig = ("function:" + got_obj.__name__, -1)
+              if got_sig != want_sig:
+                rep.violation(f"trial-quantizer-differs-{i}-{nme}-{role}", f"trial model layer {nme} ({type(lq).__name__}) role {role}: the tuner chose {chosen!r} "
+                              f"{want_sig} but the built trial model carries {got_sig}; limit entry {adj.get(next((p for p in pats if re.match(p, nme)), type(ref.get_layer(nme)).__name__))}, "
+                              f"assignment {tab}", {"limit": str(adj), "assignment": tab})
+
           if [l.name for l in qm.layers] != [l.name for l in ref.layers]:
             rep.violation(f"architecture-changed-{i}", f"trial layers {[l.name for l in qm.layers]} differ from reference {[l.name for l in ref.layers]}", {})
           for lr, lq in zip(ref.layers, qm.layers):
@@ -329,6 +362,65 @@ def main():
             size_cases.append((ref, qm, i, tab))
     finally:
       A.model_quantize = orig_mq
+  # ---- filter scaling: tune_filters = "layer" / "block" with exception patterns (anchored and not anchored)
+  n_ft = 0
+  for fi in range(6 if rep.tier == "quick" else 60):
+    try:
+      fref = gen_reference(rng, 5000 + fi)
+    except Exception:  # pylint: disable=broad-except
+      continue
+    mode = ["layer", "block"][fi % 2]
+    exc = pick(rng, ["^$", "out", "_mid", "^conv_", "head", "x|y", "[0-9]$"])
+    flimit = {"Dense": [4, 4, 4], "Conv2D": [4, 4, 4], "Conv1D": [4, 4, 4], "DepthwiseConv2D": [4, 4, 4], "Activation": [4]}
+    tgt = forgiving_factor["bits"](8.0, 8.0, 2.0, stress=1.0, config={"default": ["parameters", "activations"]})
+    try:
+      fhm = A.AutoQKHyperModel(fref, metrics=["acc"], target=tgt, limit={k: list(v) for k, v in flimit.items()}, tune_filters=mode,
+                               tune_filters_exceptions=exc, quantization_config=CUSTOM_CFG)
+    except Exception as e:  # pylint: disable=broad-except
+      rep.violation(f"filter-ctor-{fi}", f"AutoQKHyperModel(tune_filters={mode!r}, tune_filters_exceptions={exc!r}) raised {type(e).__name__}: {str(e)[:160]}", {})
+      continue
+    capf = {}
+    orig_mq = A.model_quantize
+
+    def mqf(model, qd, ab, **kw):
+      capf["sizes"] = {l.name: (getattr(l, "units", None) if type(l).__name__ == "Dense" else getattr(l, "filters", None)) for l in model.layers}
+      raise RuntimeError("captured")
+    A.model_quantize = mqf
+    tunable = [l for l in fref.layers if type(l).__name__ in ("Dense", "Conv1D", "Conv2D") and not re.search(exc, l.name)]
+    excepted = [l for l in fref.layers if type(l).__name__ in ("Dense", "Conv1D", "Conv2D") and re.search(exc, l.name)]
+    try:
+      for choice in (0, 3, 4):          # 0.5, 1.5, 2.0 of [0.5, 0.75, 1.0, 1.5, 2.0]
+        fhm.groups = {}
+        capf.clear()
+        hp = HP({("network_filters_" + l.name): choice for l in fref.layers} | {"network_filters": choice})
+        try:
+          fhm.quantize_model(hp)
+        except RuntimeError:
+          pass
+        n_ft += 1
+        rep.count(("filters", fref.to_json(), mode, exc, choice))
+        names_ = [a for a, _ in hp.log]
+        fac = [0.5, 0.75, 1.0, 1.5, 2.0][choice]
+        for l in excepted:
+          hpname = "network_filters_" + l.name
+          if hpname in names_:
+            rep.violation(f"filter-hp-for-excepted-layer-{fi}-{l.name}", f"tune_filters={mode!r}, tune_filters_exceptions={exc!r}: layer {l.name} matches the exception "
+                          f"pattern but the hyper-parameter {hpname} was created", {"pattern": exc})
+          base = l.units if type(l).__name__ == "Dense" else l.filters
+          got = (capf.get("sizes") or {}).get(l.name)
+          if got is not None and got != base:
+            rep.violation(f"excepted-layer-scaled-{fi}-{l.name}", f"tune_filters={mode!r}, tune_filters_exceptions={exc!r}, factor {fac}: excepted layer {l.name} has "
+                          f"{got} units/filters in the trial, the reference has {base}", {"pattern": exc, "factor": fac})
+        for l in tunable:
+          base = l.units if type(l).__name__ == "Dense" else l.filters
+          got = (capf.get("sizes") or {}).get(l.name)
+          want = max(int(base * fac), 1)
+          if got is not None and got != want:
+            rep.violation(f"filter-scaling-{fi}-{l.name}", f"tune_filters={mode!r}, factor {fac}: layer {l.name} has {got} units/filters in the trial, "
+                          f"expected max(int({base} * {fac}), 1) = {want}", {"factor": fac})
+    finally:
+      A.model_quantize = orig_mq
+  rep.note(filter_scaling_trials=n_ft)
   # ---- directed: two separable layers under different limit entries (each must get ITS OWN pointwise choice)
   try:
     import tensorflow.keras.layers as L
@@ -389,7 +481,7 @@ def main():
     finally:
       A.model_quantize = orig_mq
     rep.count(("directed-names", str(cap3.get("q"))))
-    want3 = {"kernel_quantizer": "ternary", "bias_quantizer": "quantized_bits(8,3,1)", "activation": "quantized_relu(3,1)"}
+    want3 = {"kernel_quantizer": "ternary", "bias_quantizer": "quantized_bits(8,3,1)", "activation_quantizer": "quantized_relu(3,1)"}
     for ln_ in ("kernel_proj", "bias_mixer"):
       got3 = (cap3.get("q") or {}).get(ln_)
       if got3 != want3:
